@@ -1,4 +1,4 @@
-\* C12 sum() over inventory values, quick: tables of up to 2 rows (3 cell values + NULL, 2 groups) x histories (one of 2 statements, then any of 15)
+\* C12 sum() over inventory values, quick: tables of up to 2 rows (3 cell values + NULL, 2 groups) x histories (one of 2 statements, then any of 15 x no LIMIT | LIMIT 1)
 CONSTANTS
   Mode = "copy"
   Scale = 1
@@ -6,6 +6,7 @@ CONSTANTS
   HistLen = 2
   Rich = FALSE
   RichCells = FALSE
+  Limits = {0, 1}
   Prices <- MCPrices
 INIT Init
 NEXT SNext
